@@ -12,6 +12,10 @@ The three repairs proposed for C13 are switches of `Cfg`, so that the code befor
   F9  `boolElemByte`    bool elements of skipped lists/sets/maps occupy one byte each
   F8  `containerDepth`  skipped containers count against THRIFT_MAX_NESTING
   F24 `pageStats`       page-header statistics are parsed (used by Impl.ThriftParquet)
+and one repair found by C06 (`C06_regression_F62`):
+  F62 `skipTruncated`   `thrift_skip` of a BYTE / DOUBLE / UUID value that the stream ends inside is
+                        THRIFT_TRUNCATED (before: `carquet_buffer_reader_skip` with its result ignored — the decoder
+                        stayed where it was and read the rest of the value as field headers)
 The C recursion of `thrift_skip` is modelled with an explicit stack budget (`stk`): running out
 of it is the status `Err.stack` (= the process dies of stack exhaustion).
 -/
@@ -32,10 +36,11 @@ structure Cfg where
   boolElemByte : Bool
   containerDepth : Bool
   pageStats : Bool
+  skipTruncated : Bool
   deriving DecidableEq, Repr
 
-def Cfg.fixed : Cfg := ⟨true, true, true⟩
-def Cfg.preFix : Cfg := ⟨false, false, false⟩
+def Cfg.fixed : Cfg := ⟨true, true, true, true⟩
+def Cfg.preFix : Cfg := ⟨false, false, false, false⟩
 
 /-- `THRIFT_MAX_NESTING` = `THRIFT_ENCODER_MAX_NESTING` (compared with the extracted value in
 the property file) -/
@@ -196,8 +201,13 @@ def Dec.has (d : Dec) (n : Nat) : Bool := lengthGe d.rest n
 
 def Dec.advance (d : Dec) (n : Nat) : Dec := { d with rest := d.rest.drop n, pos := d.pos + n }
 
-/-- `carquet_buffer_reader_skip` with its result ignored (as `thrift_skip` does) -/
+/-- `carquet_buffer_reader_skip` with its result ignored (as `thrift_skip` did before fix F62) -/
 def Dec.readerSkip (d : Dec) (n : Nat) : Dec := if d.has n then d.advance n else d
+
+/-- `skip_fixed` of `thrift_skip` (fix F62): skip `n` raw bytes of a fixed-width value; a stream that
+ends inside the value is THRIFT_TRUNCATED.  Before the fix: `readerSkip`. -/
+def Dec.skipFixed (cfg : Cfg) (d : Dec) (n : Nat) : Dec :=
+  if cfg.skipTruncated then (if d.has n then d.advance n else d.setError .truncated) else d.readerSkip n
 
 /-- `read_byte_raw` -/
 def readByteRaw (d : Dec) : UInt8 × Dec :=
@@ -405,14 +415,14 @@ def skipContainer (cfg : Cfg) (body : Dec → Dec) (d : Dec) : Dec :=
 def skipCase (cfg : Cfg) (sk : Nat → Dec → Dec) (ty : Nat) (d : Dec) : Dec :=
   if ty = 0 then d.setError .decode
   else if ty = 1 ∨ ty = 2 then { d with boolPending := false }
-  else if ty = 3 then d.readerSkip 1
+  else if ty = 3 then d.skipFixed cfg 1
   else if ty = 4 ∨ ty = 5 ∨ ty = 6 then (readVarint d).2
-  else if ty = 7 then d.readerSkip 8
+  else if ty = 7 then d.skipFixed cfg 8
   else if ty = 8 then (readBinary d).2.2
   else if ty = 9 ∨ ty = 10 then skipContainer cfg (skipListBody cfg sk) d
   else if ty = 11 then skipContainer cfg (skipMapBody cfg sk) d
   else if ty = 12 then structEnd (skipFields sk d.budget (structBegin d))
-  else if ty = 13 then d.readerSkip 16
+  else if ty = 13 then d.skipFixed cfg 16
   else d.setError .invalidType
 
 /-- `thrift_skip(dec, type)`.  `stk` is the number of C stack frames still available. -/
